@@ -302,7 +302,7 @@ func (ex *Exec) mergeStates(label string, ins []edgeState) *State {
 		for i, e := range ins {
 			vals[i] = Sc{ex.heap(e.st, n, ex.cx.heapSorts[n])}
 		}
-		out.heaps[n] = ex.mergeVals("h_"+n, vals, guards).(Sc).T
+		out.heaps[n] = ex.mergeHeapTerms("h_"+n, vals, guards, 0)
 		ex.typeHeap(n, out.heaps[n])
 	}
 	vnames := map[string]bool{}
@@ -339,6 +339,56 @@ func (ex *Exec) mergeStates(label string, ins []edgeState) *State {
 	}
 	out.spawned = dedupSpawn(out.spawned)
 	return out
+}
+
+// mergeHeapTerms merges heap terms; when all of them are stores into the same
+// heap at the same reference only the stored contents are merged, so that the
+// frame of every other reference stays syntactically visible.
+func (ex *Exec) mergeHeapTerms(prefix string, vals []Val, guards []Term, depth int) Term {
+	first := vals[0].(Sc).T
+	same := true
+	for _, v := range vals[1:] {
+		if v.(Sc).T.S != first.S {
+			same = false
+			break
+		}
+	}
+	if same {
+		return first
+	}
+	if depth < 3 {
+		h0, i0, v0, ok := splitStore(expandDef(first.S))
+		if ok {
+			all := true
+			var contents []Val
+			var inner []Val
+			sameInner, sameContent := true, true
+			for _, v := range vals {
+				h, i, c, ok2 := splitStore(expandDef(v.(Sc).T.S))
+				if !ok2 || i != i0 {
+					all = false
+					break
+				}
+				if h != h0 {
+					sameInner = false
+				}
+				if c != v0 {
+					sameContent = false
+				}
+				contents = append(contents, Sc{Term{c, elemSortOf(first.Sort)}})
+				inner = append(inner, Sc{Term{h, first.Sort}})
+			}
+			if all && sameInner {
+				mc := ex.mergeVals(prefix+"_c", contents, guards).(Sc).T
+				return store(Term{h0, first.Sort}, Term{i0, idxSortOf(first.Sort)}, mc)
+			}
+			if all && sameContent {
+				mh := ex.mergeHeapTerms(prefix, inner, guards, depth+1)
+				return store(mh, Term{i0, idxSortOf(first.Sort)}, Term{v0, elemSortOf(first.Sort)})
+			}
+		}
+	}
+	return ex.mergeVals(prefix, vals, guards).(Sc).T
 }
 
 func dedupSpawn(in []*spawnRec) []*spawnRec {
